@@ -36,12 +36,16 @@ FD_AUX = ['isatty', 'sendline', 'readline', 'fileno', 'flush']
 def _strip_tb(e):
     """A stored exception keeps its traceback, the traceback keeps the frames, the frames keep the object under test alive:
     the harness must not be the reason an object outlives its last reference."""
-    seen = 0
-    x = e
-    while x is not None and seen < 10:
+    todo, seen = [e], set()
+    while todo and len(seen) < 50:
+        x = todo.pop()
+        if x is None or id(x) in seen:
+            continue
+        seen.add(id(x))
         x.__traceback__ = None
-        x = x.__context__ or x.__cause__
-        seen += 1
+        # both links: an ExitStack, a context manager or a 'raise ... from' can leave them pointing at different exceptions
+        todo.append(x.__context__)
+        todo.append(x.__cause__)
     return e
 
 
@@ -519,8 +523,15 @@ def run(scn, prop=None):
                 break
             if state['child'] is None and (state.get('loop') is not None or state.get('closed_loops')):
                 break      # the event loop's transport still refers to the object: it is not garbage yet
+            if res['out'] in ('EXC', 'INTR', 'HANG'):
+                state['raised'] = True
             if state['child'] is None:
-                if state.get('freed_on_del') is False and state.get('loop') is None:
+                if state.get('freed_on_del') is False and state.get('raised'):
+                    # an exception that passed through the object's methods may have left a frame <-> traceback cycle behind
+                    # (the language does that by itself wherever an exception is kept in a local, contextlib.ExitStack for one):
+                    # such an object goes with the next collector run, which is all the statement asks for
+                    w.probe('del_after_an_exception_not_judged_for_immediacy')
+                elif state.get('freed_on_del') is False and state.get('loop') is None:
                     w.probe('del_needed_the_cyclic_collector')
                     V('C10.leak_until_gc', 'the last reference to the object was dropped, but its child / descriptor stayed until the '
                       'cyclic garbage collector was run by hand (the object keeps itself alive through a reference cycle)', **det)
